@@ -300,4 +300,47 @@ theorem resultant_perturb (a a' : Mat ℝ r c) (w : Vec ℝ c) (i : Fin r) :
   rw [h, norm_mul, Complex.norm_exp_ofReal_mul_I, one_mul]
   exact Real.norm_exp_I_mul_ofReal_sub_one_le
 
+/-! ### permutation, scaling, chunks, and the half-turn pair -/
+
+theorem resultant_perm (a a' : Mat ℝ r c) (w w' : Vec ℝ c) (i : Fin r) (σ : Equiv.Perm (Fin c))
+    (ha : ∀ k, a' i k = a i (σ k)) (hw : ∀ k, w' k = w (σ k)) : resultant a' w' i = resultant a w i := by
+  unfold resultant
+  rw [← Equiv.sum_comp σ (fun k => (w k : ℂ) * Complex.exp ((a i k : ℂ) * Complex.I))]
+  exact Finset.sum_congr rfl (fun k _ => by rw [ha k, hw k])
+
+theorem resultant_scale (a : Mat ℝ r c) (w : Vec ℝ c) (i : Fin r) (s : ℝ) :
+    resultant a (Vec.of (fun k => s * w k)) i = (s : ℂ) * resultant a w i := by
+  unfold resultant
+  rw [Finset.mul_sum]
+  exact Finset.sum_congr rfl (fun k _ => by simp only [Vec.of_apply]; push_cast; ring)
+
+theorem resultant_append {c₁ c₂ : Nat} (a : Mat ℝ r (c₁ + c₂)) (w : Vec ℝ (c₁ + c₂)) (i : Fin r) :
+    resultant a w i =
+      resultant (Mat.of (fun i k => a i (Fin.castAdd c₂ k))) (Vec.of (fun k => w (Fin.castAdd c₂ k))) i +
+      resultant (Mat.of (fun i k => a i (Fin.natAdd c₁ k))) (Vec.of (fun k => w (Fin.natAdd c₁ k))) i := by
+  unfold resultant
+  rw [Fin.sum_univ_add]
+  simp only [Mat.of_apply, Vec.of_apply]
+
+/-- the pair `π ± δ` with weights `1/2`, `π/2 ≤ δ < π`: the mean is `0` -/
+theorem half_turn_pair_mean (δ : ℝ) (h1 : π / 2 ≤ δ) (h2 : δ < π) :
+    dirMean (Mat.of (fun _ k => if k = 0 then π + δ else π - δ) : Mat ℝ 1 2) (Vec.of (fun _ => 1 / 2)) 0 = 0 := by
+  rw [dirMean_multi _ _ _ (by decide)]
+  have hres : resultant (Mat.of (fun _ k => if k = 0 then π + δ else π - δ) : Mat ℝ 1 2) (Vec.of (fun _ => 1 / 2)) 0
+      = ((-Real.cos δ : ℝ) : ℂ) := by
+    have e1 : Complex.exp (((π + δ : ℝ) : ℂ) * Complex.I) = ⟨-Real.cos δ, -Real.sin δ⟩ := by
+      rw [← mk_cos_sin, Real.cos_add, Real.sin_add]; simp
+    have e2 : Complex.exp (((π - δ : ℝ) : ℂ) * Complex.I) = ⟨-Real.cos δ, Real.sin δ⟩ := by
+      rw [← mk_cos_sin, Real.cos_sub, Real.sin_sub]; simp
+    unfold resultant
+    rw [Fin.sum_univ_two]
+    simp only [Mat.of_apply, Vec.of_apply, if_true, Fin.one_eq_zero_iff, OfNat.ofNat_ne_one, if_false]
+    rw [e1, e2]
+    apply Complex.ext
+    · rw [Complex.ofReal_re]; simp; ring
+    · rw [Complex.ofReal_im]; simp
+  rw [hres]
+  have hcos : Real.cos δ ≤ 0 := Real.cos_nonpos_of_pi_div_two_le_of_le h1 (by linarith [Real.pi_pos])
+  exact Complex.arg_ofReal_of_nonneg (by linarith)
+
 end BFL.Dir
